@@ -43,9 +43,9 @@ ExpShape(e) ==
 
 \* the laws of the property, per operation (a recorder cannot silently drop one)
 ReqPreds(e) ==
-  CASE e.op = "project" -> {"Hermitian", "Idempotent", "FixesA", "Complementary", "ReflectTwice"}
-    [] e.op = "chord"   -> {"ThreeRoutinesAgree", "Symmetric", "ZeroOnEqualSubspaces", "BasisInvariant", "UnitaryInvariant", "AnglesGiveDistance"}
-    [] e.op = "chordx"  -> {"TwoRoutinesAgree", "Symmetric", "BasisInvariant", "UnitaryInvariant", "NestedGivesHalfDimDiff", "AnglesSumCos2IsTrace"}
+  CASE e.op = "project" -> {"Hermitian", "Idempotent", "FixesA", "Complementary", "ReflectTwice", "SubspaceOnly"}
+    [] e.op = "chord"   -> {"ThreeRoutinesAgree", "Symmetric", "ZeroOnEqualSubspaces", "BasisInvariant", "UnitaryInvariant", "AnglesGiveDistance", "SubspaceOnly"}
+    [] e.op = "chordx"  -> {"TwoRoutinesAgree", "Symmetric", "BasisInvariant", "UnitaryInvariant", "NestedGivesHalfDimDiff", "AnglesSumCos2IsTrace", "SubspaceOnly"}
     [] e.op = "lrsv"    -> {"Unitary", "SingularValuesAligned", "LeastSubspace"}
     [] e.op = "pcm"     -> {"RankKApproximationColumns"}
     [] e.op \in {"peig", "leig"} -> {"EigenEquation", "ExtremeValuesInOrder", "UnitColumns"}
